@@ -113,12 +113,14 @@ def cases(rng, tier):
                     out.append("PARSEM " + msg.hex())
                     out.append("PARSEM " + (msg + b"\x00\x00\x01\x00\x01\x00\x00\x00\x3c\x00\x04\x01\x02\x03\x04").hex())
     # EDNS options with well-known codes and small structured payloads (client subnet with every family / prefix / address
-    # length combination up to 4 bytes, cookies, padding, ...): options are opaque to a parser, whatever their code
+    # length combination up to 64 bytes - shorter and longer than any address -, cookies, padding, ...): options are opaque to a parser, whatever their code
     payloads = [b"", b"\x00", b"\x00\x01", b"\x00\x01\x00", b"\xff" * 8, b"\x00" * 16]
     for fam in (0, 1, 2, 3):
         for src in (0, 1, 8, 24, 32, 128, 255):
-            for alen in (0, 1, 4):
+            for alen in (0, 1, 2, 3, 4, 5, 8, 15, 16, 17, 18, 20, 32, 33, 64):
                 payloads.append(bytes([0, fam, src, 0]) + b"\xc0" * alen)
+                if alen in (4, 16):
+                    payloads.append(bytes([0, fam, src, 0]) + b"\xc0" * (alen - 1) + b"\x01")
     for code in list(range(0, 21)) + [65001, 65535]:
         for pl in payloads:
             opt = b"\x00\x00\x29\x04\xd0\x00\x00\x00\x00" + (4 + len(pl)).to_bytes(2, "big") + code.to_bytes(2, "big") + len(pl).to_bytes(2, "big") + pl
